@@ -6,13 +6,9 @@
 //!   vcheck one <id> <casefile> <outfile>
 //!   vcheck list
 
-mod engine;
-mod gen;
-mod oracle;
-mod props;
-
-use engine::run::*;
-use engine::Tier;
+use altrios_verif::engine::run::*;
+use altrios_verif::engine::{self, Tier};
+use altrios_verif::props;
 
 fn main() {
     let args: Vec<String> = std::env::args().collect();
